@@ -131,7 +131,7 @@ class Site(object):
 
 
 def generate(rng, host='a.test', n_pages=None, requisites=True, redirects=True, subdirs=True, spellings=None,
-             extra_hosts=(), junk_links=False, link_redirect_targets=False):
+             extra_hosts=(), junk_links=False, link_redirect_targets=False, frames=False):
     site = Site(host)
     n = n_pages or rng.choice([3, 5, 8, 12, 20, 40])
     base = 'http://' + host
@@ -199,6 +199,17 @@ def generate(rng, host='a.test', n_pages=None, requisites=True, redirects=True, 
             if rng.random() < 0.15:
                 js = fresh('app', 'js')
                 add_link(rng, site, u, js.url, 'script', allow)
+    if requisites and frames:
+        # framed documents: inline (page requisite) HTML pages that themselves link onwards; each frame page is only
+        # ever referenced as a frame, so its recorded link kind does not depend on discovery order
+        for u in list(html):
+            if rng.random() < 0.12:
+                serial[0] += 1
+                fr = site.add(Page(base + rng.choice(dirs) + 'frame%d.html' % serial[0], 'html'))
+                add_link(rng, site, u, fr.url, 'iframe', allow)
+                for _ in range(rng.choice([0, 1, 2])):
+                    add_link(rng, site, fr.url, rng.choice(html), 'a', allow)
+                site.features.add('iframe')
     if redirects:
         for _ in range(rng.choice([0, 1, 2, 3])):
             serial[0] += 1
